@@ -337,37 +337,110 @@ def closure_param_zero_guard(P, fn, divisor_op):
             if vname is None:
                 return None
             # in the root function: same accessor on the variable of that name, payload tested against zero
-            for b2, t2 in P.calls(root):
-                if not t2.get("f") or t2["f"]["id"] != accname or not t2["args"]:
-                    continue
-                a2 = op_local(t2["args"][0])
-                if not a2 or source_var_name(root, a2[0]) != vname:
-                    continue
-                d2 = t2["d"][0]
-                # the closure chain is created after this test: find the block creating the outermost closure
-                create_blocks = [ci for ci, blk in enumerate(root.blocks) for st in blk["s"]
-                                 if st[0] == "a" and st[2]["k"] == "agg" and st[2].get("ak") == "closure"
-                                 and (fn.id.startswith(st[2]["id"]))]
-                if not create_blocks:
-                    continue
-                cb = create_blocks[0]
-                for ci, blk in enumerate(root.blocks):
-                    tt = blk["t"]
-                    if tt["k"] != "switch":
-                        continue
-                    sl = op_local(tt["o"])
-                    for st in blk["s"]:
-                        if st[0] == "a" and sl and st[1][0] == sl[0] and st[2]["k"] == "bin" and st[2]["op"] in ("Eq", "Ne"):
-                            la = op_local(st[2]["a"])
-                            if la and st[2]["b"][0] == "k" and st[2]["b"][1].get("val") == 0:
-                                from origins import backward_slice
-                                locs, _ = backward_slice(root, la[0])
-                                if d2 in locs:
-                                    zedge = [tt["else"]] if st[2]["op"] == "Eq" else [tb for v, tb in tt["t"] if v == 0]
-                                    if zedge and cb not in P.reach(root, zedge):
-                                        return ("closure divisor = payload of %s(%s); the enclosing function tests the same accessor's payload "
-                                                "against 0 and leaves on the zero edge before the closure is built" % (accname.rsplit("::", 1)[1], vname))
+            import inline
+            views = [root]
+            hs = inline.helpers_of(P, [root], depth=1)
+            if hs:
+                rv2, n2 = inline.inlined(P, root, frozenset(hs))
+                if n2:
+                    views.append(rv2)
+            for view in views:
+                why = _payload_zero_exit(P, view, fn, accname, vname)
+                if why:
+                    return why + ("" if view is root else " (seen with the private helper(s) %s expanded in place)" % sorted(h.rsplit("::", 1)[-1] for h in hs))
     return None
+
+
+def _payload_zero_exit(P, root, fn, accname, vname):
+    from origins import backward_slice
+    from kreach import kreach
+    create_blocks = [ci for ci, blk in enumerate(root.blocks) for st in blk["s"]
+                     if st[0] == "a" and st[2]["k"] == "agg" and st[2].get("ak") == "closure"
+                     and (fn.id.startswith(st[2]["id"]))]
+    if not create_blocks:
+        return None
+    cb = create_blocks[0]
+    for b2, t2 in P.calls(root):
+        if not t2.get("f") or t2["f"]["id"] != accname or not t2["args"]:
+            continue
+        a2 = op_local(t2["args"][0])
+        if not a2 or vname not in source_var_names(root, a2[0]):
+            continue
+        d2 = t2["d"][0]
+        for xi, blk in enumerate(root.blocks):
+            for st in blk["s"]:
+                if not (st[0] == "a" and not st[1][1] and st[2]["k"] == "bin" and st[2]["op"] in ("Eq", "Ne")):
+                    continue
+                la = op_local(st[2]["a"])
+                if not (la and st[2]["b"][0] == "k" and isinstance(st[2]["b"][1], dict) and st[2]["b"][1].get("val") == 0):
+                    continue
+                locs, _ = backward_slice(root, la[0])
+                if d2 not in locs:
+                    continue
+                # locals that hold this comparison's result (forward copies)
+                holds = {st[1][0]}
+                changed = True
+                while changed:
+                    changed = False
+                    for b3 in root.blocks:
+                        for s3 in b3["s"]:
+                            if s3[0] == "a" and not s3[1][1] and s3[2]["k"] == "use" and s3[1][0] not in holds:
+                                o3 = op_local(s3[2]["o"])
+                                if o3 and o3[0] in holds and not o3[1]:
+                                    holds.add(s3[1][0])
+                                    changed = True
+                region = P.reach(root, [xi])
+                tests = [wi for wi in region if root.blocks[wi]["t"]["k"] == "switch" and op_local(root.blocks[wi]["t"]["o"])
+                         and op_local(root.blocks[wi]["t"]["o"])[0] in holds]
+                if not tests:
+                    continue
+                # the closure cannot be built after this comparison without passing one of the tests ...
+                succ0 = [xi] if xi in tests else None
+                before = P.reach(root, [xi], stop=set(tests)) if xi not in tests else {xi}
+                if cb in before and xi not in tests:
+                    continue
+                ok = True
+                for wi in tests:
+                    tt = root.blocks[wi]["t"]
+                    zedge = [tt["else"]] if st[2]["op"] == "Eq" else [tb for v, tb in tt["t"] if v == 0]
+                    if not zedge or (cb in P.reach(root, zedge) and cb in kreach(P, root, zedge)):
+                        ok = False
+                if ok:
+                    return ("closure divisor = payload of %s(%s); the enclosing function tests the same accessor's payload "
+                            "against 0 and leaves on the zero edge before the closure is built" % (accname.rsplit("::", 1)[1], vname))
+    return None
+
+
+def source_var_names(fn, local, depth=12):
+    """Debug names of every source variable on the copy/reference chain of a local (a helper's parameter
+    and the caller's variable it was passed are both on the chain in an inlined view)."""
+    from mirutil import defs_of
+    out = set()
+    cur = local
+    for _ in range(depth):
+        for nm, pl in fn.names:
+            if pl[0] == cur and not pl[1]:
+                out.add(nm)
+        ds = defs_of(fn, cur)
+        if len(ds) != 1 or ds[0][0] != "a":
+            break
+        d = ds[0][3]
+        pl = None
+        if d["k"] in ("use", "cast"):
+            ol = op_local(d["o"])
+            pl = [ol[0], ol[1]] if ol else None
+        elif d["k"] == "ref":
+            pl = d["p"]
+        if pl is None:
+            break
+        if pl[0] == 1 and fn.kind == "closure":
+            fs = [p[1] for p in pl[1] if p[0] == "f"]
+            for nm, npl in fn.names:
+                if npl[0] == 1 and [p[1] for p in npl[1] if p[0] == "f"][:1] == fs[:1]:
+                    out.add(nm)
+            break
+        cur = pl[0]
+    return out
 
 
 def source_var_name(fn, local, depth=10):
